@@ -254,6 +254,51 @@ def gen_encode(rng):
     return {"kind": "encode", "enc": enc, "pieces": pieces}
 
 
+def pipeline_impl(case):
+    """byte-mode input stream with arbitrary bytes (valid and invalid UTF-8) through the real stdin handler
+    (read_our_stdin's incremental decoder, then write_proc_stdin's encoder): the bytes handed to the process"""
+    from fakerunner import Scripted
+
+    class UntilClosed(Scripted):
+        @property
+        def process_is_finished(self):
+            return self.stdin_closed > 0 or time.monotonic() > self._deadline
+
+    r = UntilClosed(pty=False)
+    r._deadline = time.monotonic() + 4
+    r.run("cmd", in_stream=io.BytesIO(bytes.fromhex(case["hex"])), hide=True, encoding="utf-8", echo_stdin=False)
+    return b"".join(r.stdin_writes), r.stdin_closed
+
+
+def pipeline_case(case):
+    got, closed = pipeline_impl(case)
+    data = bytes.fromhex(case["hex"])
+    try:
+        data.decode("utf-8")
+    except UnicodeDecodeError:
+        return None  # not the encoding of a text: outside the property (model and code are still compared on it)
+    if got != data:
+        return "byte input %r (valid UTF-8): the process was handed %r" % (data[:30], got[:40])
+    if closed != 1:
+        return "byte input %r: stdin closed %d times" % (data[:30], closed)
+    return None
+
+
+def gen_pipeline(rng):
+    parts = []
+    for _ in range(rng.randint(0, 6)):
+        k = rng.random()
+        if k < 0.7:
+            parts.append(rng.choice("ab \n\u00e9\u00f1\u20ac\u65e5\U0001f600\ufeff\u07ff\u0800\uffff\U00010000\U0010ffff\ud7ff\ue000"
+                                    .encode().decode("unicode_escape")).encode("utf-8", "surrogatepass"))
+        elif k < 0.85:  # a truncated character
+            b = rng.choice("\u00e9\u20ac\U0001f600".encode().decode("unicode_escape")).encode()
+            parts.append(b[:rng.randint(1, len(b) - 1)])
+        else:  # bytes that never occur in UTF-8, overlongs, surrogates, lone continuation bytes
+            parts.append(rng.choice([b"\xff", b"\xc0\xaf", b"\xed\xa0\x80", b"\x80", b"\xf4\x90\x80\x80", b"\xe0\x80\x80", b"\xf8"]))
+    return {"kind": "pipeline", "hex": b"".join(parts).hex()}
+
+
 def async_case(case):
     """asynchronous run with an EXPLICIT input stream (which may be the sys.stdin object itself): the text must be
     forwarded and EOF delivered; without an explicit stream nothing is forwarded"""
@@ -318,6 +363,8 @@ def replay(case):
         why = guarded(async_case, case)
     elif k == "encode":
         why = guarded(encode_case, case)
+    elif k == "pipeline":
+        why = guarded(pipeline_case, case)
     elif "sched" in case:
         o = runnerio.run_impl(case)
         why = oracle_gated(case, o, runnerio.impl_obs(case, o))
@@ -379,6 +426,36 @@ def run(ctx):
                 out.disagree(c, got.hex(), m)
         why = encode_case(c)
         if why:
+            out.fail(c, why)
+    # byte-mode input: decode-then-encode against the model composition (driver op R; one byte per read, as the code reads)
+    pcases = [gen_pipeline(rng) for _ in range(ctx.n(300, 3000))]
+    pmodel = (common.LeanDriver("drv_runner").run(["R|" + ",".join("%02x" % b for b in bytes.fromhex(c["hex"])) for c in pcases])
+              if ctx.model_ok else [None] * len(pcases))
+    npf = 0
+    for c, m in zip(pcases, pmodel):
+        if npf >= 4:
+            break
+        data = bytes.fromhex(c["hex"])
+        try:
+            data.decode("utf-8")
+            valid = True
+        except UnicodeDecodeError:
+            valid = False
+        out.case(c, len(data) > 1)
+        out.hist["pipeline:" + ("valid" if valid else "invalid")] += 1
+        try:
+            got, _closed = common.with_timeout(pipeline_impl, 30, c)
+        except common.Hang:
+            out.fail(c, "[hang] the run did not return")
+            npf += 1
+            continue
+        if m is not None:
+            out.traces += 1
+            if got.hex() != m:
+                out.disagree(c, got.hex(), m)
+        why = pipeline_case(c)
+        if why:
+            npf += 1
             out.fail(c, why)
     failed_of_kind = {}
     for c in extra:
